@@ -50,6 +50,7 @@ class World:
         self._n = 0
         self.obs = []
         self.notes = {}
+        self.n_struct = 0  # equalities closed by structural identity of the two terms
 
     # ------------------------------------------------------------------ inputs
     def _default(self, name):
@@ -121,6 +122,7 @@ class World:
             nl = getattr(a, "nl", False) or getattr(b, "nl", False)
             na, nb = sym.nanflag(a), sym.nanflag(b)
             if ta.eq(tb) and na is None and nb is None:
+                self.n_struct += 1
                 return True
             t = ta == tb
             if na is not None or nb is not None:
